@@ -2,8 +2,9 @@
 (***************************************************************************)
 (* C17 as clauses over one run of the real throttle handler with one or    *)
 (* several connections.  Times in ms since the run started.                *)
-(*   t.rate, t.burst (0 = no per-connection limit), t.trate, t.tburst      *)
-(*   (0 = no total limit), t.latency, t.eps                                *)
+(*   t.rate, t.burst, t.trate, t.tburst as configured (rate 0 and burst 0  *)
+(*   = that limit is off; burst 0 with a rate = the documented default,    *)
+(*   "same as the rate"), t.latency, t.eps                                 *)
 (*   t.ev: [e |-> "Start", c, t]   Handle invoked for connection c         *)
 (*         [e |-> "Pull", c, n, t] the underlying connection served n      *)
 (*                                 bytes to the throttle (stamped when     *)
@@ -21,6 +22,7 @@ Pulls(t) == { i \in 1..Len(t.ev) : IsE(t.ev[i], "Pull") }
 \* G2: summed over all connections of the handler, for the total limit
 \* "the first read" is the instant the reader ISSUED its first read (t.t0[c], t.tt0 for the
 \* handler); bytes count when the underlying connection serves them.  One linear pass.
+EffBurst(burst, rate) == IF burst > 0 THEN burst ELSE rate      \* documented default burst: the rate
 RECURSIVE Walk(_, _, _, _, _)
 Walk(t, i, acc, tsum, bad) ==
   IF i > Len(t.ev) THEN bad
@@ -28,8 +30,8 @@ Walk(t, i, acc, tsum, bad) ==
        IF e.e # "Pull" THEN Walk(t, i + 1, acc, tsum, bad)
        ELSE LET s  == acc[e.c] + e.n
                 ts == tsum + e.n
-                b1 == t.burst > 0 /\ s * 1000 > t.burst * 1000 + t.rate * (e.t - t.t0[e.c] + 1)
-                b2 == t.tburst > 0 /\ ts * 1000 > t.tburst * 1000 + t.trate * (e.t - t.tt0 + 1)
+                b1 == EffBurst(t.burst, t.rate) > 0 /\ s * 1000 > EffBurst(t.burst, t.rate) * 1000 + t.rate * (e.t - t.t0[e.c] + 1)
+                b2 == EffBurst(t.tburst, t.trate) > 0 /\ ts * 1000 > EffBurst(t.tburst, t.trate) * 1000 + t.trate * (e.t - t.tt0 + 1)
             IN Walk(t, i + 1, [acc EXCEPT ![e.c] = s], ts,
                     bad \cup (IF b1 THEN {"G1 a connection read more than burst + rate x time"} ELSE {})
                         \cup (IF b2 THEN {"G2 the connections of the handler together read more than total burst + total rate x time"} ELSE {}))
